@@ -254,4 +254,4 @@ def main(tier=None, replay=None):
     ck.assumptions += ['circuits are acyclic once cut at state elements; forks have one driver', 'fan-in: a non-origin state element feeding the cone may or may not be yielded (DESIGN §5.2)',
                        'prefixes are plain identifiers; all names of one base have the same number of indices', 'TLC, JSON reader, harness projection']
     return ck.finish('seeded random circuits (both styles, <=20 gates, <=3 state elements, removed lines, isolated nodes) x random origin sets; '
-                     'name sets over 10 bases x 6 index styles x depths 0..2 with gaps x 10 prefixes; distinct by circuit digest')
+                     'circuits with a 257..300-branch fork, re-traversal after size-preserving rewiring; name sets over 10 bases x 6 index styles x depths 0..2 with gaps x 10 prefixes, lookups repeated after a port swap; distinct by circuit digest')
